@@ -529,6 +529,20 @@ Theorem GenTie_div_top : forall n d,
 Proof. exact g_div_eq. Qed.
 Print Assumptions GenTie_div_top.
 
+(* src/lib.rs: the from_limbs_slice family (`limbs[..n].copy_from_slice(..)`, `slice.split_at(LIMBS)`) *)
+Theorem GenTie_from_limbs_slice : forall bits slice,
+  0 <= bits -> nlimbs bits < B ->
+  g_overflowing_from_limbs_slice bits (nlimbs bits) slice = Conv.overflowing_from_limbs_slice bits slice /\
+  g_from_limbs_slice bits (nlimbs bits) slice = Conv.from_limbs_slice bits slice /\
+  g_checked_from_limbs_slice bits (nlimbs bits) slice = Conv.checked_from_limbs_slice bits slice /\
+  g_wrapping_from_limbs_slice bits (nlimbs bits) slice = Conv.wrapping_from_limbs_slice bits slice /\
+  g_saturating_from_limbs_slice bits (nlimbs bits) slice = Conv.saturating_from_limbs_slice bits slice.
+Proof.
+  intros bits slice H0 HB. destruct (g_from_limbs_slice_family bits slice H0 HB) as (E1 & E2 & E3 & E4).
+  exact (conj E1 (conj E2 (conj E3 (conj E4 (g_saturating_from_limbs_slice_eq bits slice H0 HB))))).
+Qed.
+Print Assumptions GenTie_from_limbs_slice.
+
 (* the premises are satisfiable and the generated code computes: reciprocal(2^63) = 2^64 - 1 *)
 Example GenTie_nonvacuous :
   g_reciprocal_mg10 (2 ^ 63) = Val (2 ^ 64 - 1) /\ g_mask 65 = Val 1 /\ g_nlimbs 65 = Val 2 /\
@@ -553,6 +567,8 @@ Example GenTie_nonvacuous :
   g_bitxor 65 2 [5; 1] [3; 1] = Val [6; 0] /\
   g_leading_zeros 65 2 [5; 0] = Val 62 /\
   g_reverse_bits 65 2 [1; 0] = Val [0; 1] /\
+  g_overflowing_from_limbs_slice 65 2 [7; 3; 0; 9] = Val ([7; 1], true) /\
+  g_checked_from_limbs_slice 65 2 [7] = Val (Some [7; 0]) /\
   g_most_significant_bits 130 3 [2 ^ 63; 5; 0] = Val (0xB000000000000000, 3) /\
   g_inv_ring 130 3 [3; 0; 0] = Val (Some [12297829382473034411; 12297829382473034410; 2]) /\
   g_mat_from_u64 240 46 = Val (9, 47, 23, 120, false) /\
